@@ -45,6 +45,7 @@ import Driver.AbsMeta
 import Driver.Chmap
 import Driver.Probe
 import Driver.VocBlocks
+import Driver.Label
 import Driver.ShortIo
 import Driver.HandleG
 open Sf
@@ -137,6 +138,7 @@ def main (args : List String) : IO UInt32 := do
   | "chmap" :: rest => ChmapDriver.main rest
   | "probe" :: rest => ProbeDriver.main rest
   | "vocblocks" :: rest => VocBlocksDriver.main rest
+  | "label" :: rest => LabelDriver.main rest
   | "shortio" :: rest => ShortIoDriver.main rest
   | "handleg" :: rest => HandleGDriver.cmd rest
   | _ => IO.eprintln "usage: sfmodel <g711|...> ..."; return 2
